@@ -60,6 +60,10 @@ func profiles() map[string][]byte {
 	q.DropFrames, q.KeepFrames = "b", ""
 	q.Stacks[1].Labels = map[string][]string{"k": {"y"}, "pprof::base": {"true"}}
 	out["dropframes+base-label"] = drive.Encode(ap.Concretize(q, ap.Opts{}))
+	// a numeric tag that occurs with two units: every report warns about it, every time
+	u := p.Clone()
+	u.Stacks[2].NumUnit = map[string][]string{"bytes": {"kilobytes"}}
+	out["unit-conflict"] = drive.Encode(ap.Concretize(u, ap.Opts{}))
 	// recursion and shared inlined location
 	s := base()
 	s.Stacks = []ap.Stack{
@@ -137,6 +141,8 @@ type session struct {
 	outs  []string // probe outputs in order
 	state string   // option state at the end
 	errs  int
+	msgs  [][]string // per probe: the messages printed while it ran
+	greet []string   // messages printed before the first line was read
 	pan   string
 }
 
@@ -171,6 +177,16 @@ func runSession(data []byte, lines []string) session {
 	}
 	s.state = driver.VerifConfigState()
 	s.errs = len(ui.Errs)
+	s.msgs = make([][]string, len(probes))
+	first := len(ui.Lines) - len(probes) // index of the first probe line
+	for k, m := range ui.Errs {
+		at := ui.ErrAt[k] // a message printed after n lines were read belongs to line n-1
+		if at == 0 {
+			s.greet = append(s.greet, m)
+		} else if i := at - 1 - first; i >= 0 && i < len(probes) {
+			s.msgs[i] = append(s.msgs[i], m)
+		}
+	}
 	return s
 }
 
@@ -201,6 +217,19 @@ func Run(c *vk.Ctx) {
 	var idx int64
 	for _, pn := range names {
 		data := ps[pn]
+		// self-check and clause in one: the same session twice in one process prints the same reports and
+		// the same messages (a warning is not a thing that is said once per process)
+		if s1, s2 := runSession(data, nil), runSession(data, nil); s1.pan == "" && s2.pan == "" {
+			c.Eval()
+			for i := range probes {
+				if s1.outs[i] != s2.outs[i] || strings.Join(s1.msgs[i], "\n") != strings.Join(s2.msgs[i], "\n") {
+					c.Violationf("rerun/interactive", witness{Profile: pn, Probe: probes[i]}, "the same fresh session run twice in one process differs at %q\n first:  %q\n second: %q", probes[i], s1.msgs[i], s2.msgs[i])
+				}
+			}
+			if strings.Join(s1.greet, "\n") != strings.Join(s2.greet, "\n") {
+				c.Violationf("rerun/interactive", witness{Profile: pn}, "the same fresh session run twice in one process greets differently\n first:  %q\n second: %q", s1.greet, s2.greet)
+			}
+		}
 		fresh := map[string]session{} // option state -> session that only got assignments
 		var rec func(h []string)
 		rec = func(h []string) {
@@ -262,6 +291,11 @@ func checkHistory(c *vk.Ctx, pn string, data []byte, h []string, fresh map[strin
 		if got.outs[i] != ref.outs[i] {
 			w.Probe = probes[i]
 			c.Violationf("leak/interactive/"+strings.Fields(probes[i])[0], w, "output of %q after the history differs from its output in a fresh session with the same options\n%s", probes[i], firstDiff(ref.outs[i], got.outs[i]))
+		}
+		// what a command prints next to its report (warnings) is output of that command too
+		if strings.Join(got.msgs[i], "\n") != strings.Join(ref.msgs[i], "\n") {
+			w.Probe = probes[i]
+			c.Violationf("leak/interactive-messages/"+strings.Fields(probes[i])[0], w, "messages of %q after the history differ from those in a fresh session with the same options\n fresh:   %q\n history: %q", probes[i], ref.msgs[i], got.msgs[i])
 		}
 	}
 	ncmd := len(h) - len(assigns)
